@@ -18,7 +18,8 @@ TRUSTED = B.TRUSTED + ["real preemption points, dict atomicity under the GIL and
 ASSUMPTIONS = ["each modelled action is atomic (dict get/set under the GIL)"]
 EXPLANATION = ("interleaving model (Conc/Conc.v): queries as programs of atomic actions on the shared state of Purity.v; "
                "theorems in Props/C20.v: every schedule yields the history-free answers, hence the serial results - generic form with two postings premises, and premise-free for every indexed corpus "
-               "(C20_every_interleaving, C20_schedule_eq_serial). edismax and slop run on the real threads only.")
+               "(C20_every_interleaving, C20_schedule_eq_serial). edismax is a program of the dynamic model (Conc/Conc_Edismax.v, C20_edismax_threads) but is not run by the "
+               "extracted model: the real threads' edismax results are compared with the serial ones; slop runs on the real threads only.")
 
 
 def gen(rng, tier):
